@@ -43,7 +43,10 @@ pub fn generate(out: &mut Out, rng: &Prng, thorough: bool) {
         let wrap_start = *rng.pick(&[5u16, 65530, 32760, 0]);
         let mut seqs: Vec<u16> = (0..nm).map(|i| wrap_start.wrapping_add(100 * i as u16)).collect();
         let steps_of: Vec<u16> = (0..nm).map(|_| *rng.pick(&[0u16, 0, 1, 3, 254, 255, 300])).collect();
-        let own_identity_master = rng.chance(1, 10); // master 0 bears our clock identity
+        let own_identity_master = rng.chance(1, 6); // master 0 bears our clock identity …
+        // … as another port of this very instance would (its Announces coming back over the network), or as a
+        // reflection of this port's own
+        let own_src_port = *rng.pick(&[1u16, 2, 2, 7]);
         let prio: Vec<u8> = (0..nm).map(|i| 10 + i as u8).collect(); // master 0 is the best
         let mut hist: Vec<Hist> = (0..nm).map(|_| Hist { receipts: vec![] }).collect();
         let pattern: Vec<u8> = (0..nm).map(|_| rng.below(4) as u8).collect(); // 0 steady, 1 sparse, 2 silent after a while, 3 bursty
@@ -81,7 +84,8 @@ pub fn generate(out: &mut Out, rng: &Prng, thorough: bool) {
                 for &(ph, mi, seq, _) in events.iter().filter(|e| e.0 == phase) {
                     let _ = ph;
                     let clock = if own_identity_master && mi == 0 { own } else { id(mi as u8 + 1) };
-                    let mut f = Frame::announce(clock, 1, seq);
+                    let src_port = if own_identity_master && mi == 0 { own_src_port } else { 1 };
+                    let mut f = Frame::announce(clock, src_port, seq);
                     f.set_announce(&AnnounceFields { utc: 0, p1: prio[mi], class: 6, acc: 0x20, var: 1, p2: 1, gm: clock, steps: steps_of[mi], time_source: 0x20 });
                     f.flags[1] = 0x08;
                     emit(out, &mut ex, format!("P1 GEN {}", hex(&f.bytes())));
@@ -94,7 +98,7 @@ pub fn generate(out: &mut Out, rng: &Prng, thorough: bool) {
                 // ---- oracle on the implementation's own observation
                 let st = obs.split(" | ").find(|p| p.starts_with("S ")).map(|p| p[2..].split(',').next().unwrap_or("").to_string()).unwrap_or_default();
                 let parent = obs.split(" | ").find(|p| p.starts_with("D ")).and_then(|p| p.split_whitespace().nth(2).map(|x| x.to_string())).unwrap_or_default();
-                let slave_of = if st == "Slave" { (0..nm).find(|&mi| { let c = if own_identity_master && mi == 0 { own } else { id(mi as u8 + 1) }; parent == format!("{}:1", hex(&c)) }) } else { None };
+                let slave_of = if st == "Slave" { (0..nm).find(|&mi| { let (c, sp) = if own_identity_master && mi == 0 { (own, own_src_port) } else { (id(mi as u8 + 1), 1) }; parent == format!("{}:{sp}", hex(&c)) }) } else { None };
                 out.count(&format!("fml.state.{st}"));
                 // window in BMCA ticks: a record registered at tick r has, during the run at tick T (0-based), age (T - r) steps;
                 // it is kept while age * step < 4 s  <=>  (T - r) < 4 * runs_per_interval
@@ -106,16 +110,22 @@ pub fn generate(out: &mut Out, rng: &Prng, thorough: bool) {
                     distinct.sort();
                     distinct.dedup();
                     if inside.len() < 2 {
-                        out.oracle("C06", "parent-on-fewer-than-two-receipts", &format!("master {mi} selected at BMCA {now} with {} receipts inside the window", inside.len()));
+                        out.oracle("C06", "parent-on-fewer-than-two-receipts", &format!("BMCA {order} -> master {mi} selected at BMCA {now} with {} receipts inside the window", inside.len()));
                     } else if distinct.len() < 2 {
-                        out.oracle("C06", "parent-on-duplicated-single-announce", &format!("master {mi} selected at BMCA {now}: all {} receipts inside the window carry sequenceId {} (one Announce duplicated by the network counted twice)", inside.len(), distinct[0]));
+                        out.oracle("C06", "parent-on-duplicated-single-announce", &format!("BMCA {order} -> master {mi} selected at BMCA {now}: all {} receipts inside the window carry sequenceId {} (one Announce duplicated by the network counted twice)", inside.len(), distinct[0]));
                     }
                     if steps_of[mi] >= 255 {
-                        out.oracle("C06", "parent-with-steps-removed-255", &format!("master {mi} (stepsRemoved {}) selected at BMCA {now}", steps_of[mi]));
+                        out.oracle("C06", "parent-with-steps-removed-255", &format!("BMCA {order} -> master {mi} (stepsRemoved {}) selected at BMCA {now}", steps_of[mi]));
                     }
                     if own_identity_master && mi == 0 {
-                        out.oracle("C06", "parent-with-own-clock-identity", &format!("master bearing the instance's own clock identity selected at BMCA {now}"));
+                        out.oracle("C06", "parent-with-own-clock-identity", &format!("BMCA {order} -> master bearing the instance's own clock identity selected at BMCA {now}"));
                     }
+                }
+                // Announces bearing the instance's own clock identity (whatever their port number) are never stored:
+                // they leave no trace in the port state. Nothing else in this stream can make the port Passive (all
+                // grandmasters are distinct, the own clock is class 255), and with no other master it stays Listening.
+                if own_identity_master && (st == "Passive" || (nm == 1 && st != "Listening")) {
+                    out.oracle("C06", "own-clock-identity-qualified", &format!("BMCA {order} -> Announces from {}:{own_src_port} (the instance's own clock identity) made the port {st} at BMCA {now}", hex(&own)));
                 }
                 // sufficiency: the best master (0), valid, with two distinct accepted Announces inside the
                 // window (by an independent replay of the sequence-number rule) must be the parent
@@ -146,19 +156,19 @@ pub fn generate(out: &mut Out, rng: &Prng, thorough: bool) {
                     d.sort();
                     d.dedup();
                     if d.len() >= 2 && slave_of != Some(0) {
-                        out.oracle("C06", "qualified-master-not-selected", &format!("best master has {} distinct accepted Announces well inside the window at BMCA {now} but the port is {st} (parent {parent}); receipts (tick, seq): {:?}", d.len(), hist[0].receipts.iter().map(|r| (r.0, r.1)).collect::<Vec<_>>()));
+                        out.oracle("C06", "qualified-master-not-selected", &format!("BMCA {order} -> best master has {} distinct accepted Announces well inside the window at BMCA {now} but the port is {st} (parent {parent}); receipts (tick, seq): {:?}", d.len(), hist[0].receipts.iter().map(|r| (r.0, r.1)).collect::<Vec<_>>()));
                     }
                 }
                 // silence: nothing from the selected master for window + 1 runs => not its slave any more
                 if let Some(mi) = was_slave_of {
                     let last = hist[mi].receipts.iter().map(|r| r.0).max().unwrap_or(0);
                     if slave_of == Some(mi) && now > last + window + 1 {
-                        out.oracle("C06", "silent-master-kept", &format!("master {mi} last heard at tick {last}, still parent at BMCA {now} (window {window} runs)"));
+                        out.oracle("C06", "silent-master-kept", &format!("BMCA {order} -> master {mi} last heard at tick {last}, still parent at BMCA {now} (window {window} runs)"));
                     }
                 }
                 // steady: master 0 (best), steady pattern, valid => once selected, never dropped
                 if pattern[0] == 0 && steps_of[0] < 255 && !own_identity_master && was_slave_of == Some(0) && slave_of != Some(0) {
-                    out.oracle("C06", "steady-master-dropped", &format!("best master announcing every interval was dropped at BMCA {now} (state {st})"));
+                    out.oracle("C06", "steady-master-dropped", &format!("BMCA {order} -> best master announcing every interval was dropped at BMCA {now} (state {st})"));
                 }
                 was_slave_of = slave_of;
             }
